@@ -29,6 +29,23 @@ BIN = {ast.Add: ast.Sub, ast.Sub: ast.Add, ast.Mult: ast.FloorDiv, ast.LShift: a
        ast.BitOr: ast.BitAnd, ast.BitAnd: ast.BitOr, ast.Pow: ast.Mult}
 
 
+# identifiers a maintainer can plausibly confuse: every occurrence as attribute or plain name is swapped with its partner
+SWAPS = [("options_1", "options_2"), ("option_index_1", "option_index_2"), ("num_options_1", "num_options_2"),
+         ("service_id", "instance_id"), ("major_version", "minor_version"), ("INITIAL_DELAY_MIN", "INITIAL_DELAY_MAX"),
+         ("REQUEST_RESPONSE_DELAY_MIN", "REQUEST_RESPONSE_DELAY_MAX"), ("flag_reboot", "flag_unicast"),
+         ("old_flag", "flag"), ("old_session_id", "session_id"), ("service_offered", "service_stopped"),
+         ("client_subscribed", "client_unsubscribed"), ("_send_start_subscribe", "_send_stop_subscribe"),
+         ("ANNOUNCE_TTL", "SUBSCRIBE_TTL"), ("FIND_TTL", "ANNOUNCE_TTL"), ("incoming", "outgoing"), ("oi1", "oi2"), ("no1", "no2"),
+         ("_notify_service_offered", "_notify_service_stopped"), ("callback_new", "callback_expired"),
+         ("watched_services", "found_services"), ("multicast", "flag"), ("addr", "remote"), ("min", "max"),
+         ("subscribe", "unsubscribe"), ("start", "stop"), ("eventgroup_id", "eventgroup_counter"),
+         ("endpoint", "source"), ("REPETITIONS_BASE_DELAY", "CYCLIC_OFFER_DELAY"), ("TTL_FOREVER", "SD_PORT")]
+SWAPMAP = {}
+for _a, _b in SWAPS:
+    SWAPMAP.setdefault(_a, []).append(_b)
+    SWAPMAP.setdefault(_b, []).append(_a)
+
+
 def sites(tree):
     """yield (path-of-node, kind, variant) for every mutation site; path = list of (field, index) from the module"""
     out = []
@@ -69,6 +86,18 @@ def sites(tree):
             out.append((path, "dropjump", 0))
         if isinstance(node, ast.AugAssign):
             out.append((path, "augop", 0))
+        if isinstance(node, ast.Attribute) and node.attr in SWAPMAP and isinstance(node.ctx, ast.Load):
+            for j in range(len(SWAPMAP[node.attr])):
+                out.append((path, "attrswap", j))
+        if isinstance(node, ast.Name) and node.id in SWAPMAP and isinstance(node.ctx, ast.Load):
+            for j in range(len(SWAPMAP[node.id])):
+                out.append((path, "nameswap", j))
+        if isinstance(node, ast.keyword) and node.arg in SWAPMAP:
+            for j in range(len(SWAPMAP[node.arg])):
+                out.append((path, "kwswap", j))
+        if isinstance(node, ast.Call) and len(node.args) >= 2 and not node.keywords and all(
+                isinstance(a, (ast.Name, ast.Attribute)) for a in node.args[:2]):
+            out.append((path, "argswap", 0))
         for field, value in ast.iter_fields(node):
             if isinstance(value, list):
                 for i, v in enumerate(value):
@@ -152,6 +181,18 @@ def mutate(src, path, kind, var):
     elif kind == "dropjump":
         desc = "drop " + type(node).__name__.lower()
         setnode(tree, path, ast.Pass())
+    elif kind == "attrswap":
+        desc = f".{node.attr}->.{SWAPMAP[node.attr][var]}"
+        node.attr = SWAPMAP[node.attr][var]
+    elif kind == "nameswap":
+        desc = f"{node.id}->{SWAPMAP[node.id][var]}"
+        node.id = SWAPMAP[node.id][var]
+    elif kind == "kwswap":
+        desc = f"{node.arg}=->{SWAPMAP[node.arg][var]}="
+        node.arg = SWAPMAP[node.arg][var]
+    elif kind == "argswap":
+        desc = "swap first two arguments of " + ast.unparse(node.func)[:40]
+        node.args[0], node.args[1] = node.args[1], node.args[0]
     elif kind == "augop":
         old = type(node.op).__name__
         node.op = ast.Sub() if isinstance(node.op, ast.Add) else ast.Add()
@@ -160,7 +201,7 @@ def mutate(src, path, kind, var):
     return ast.unparse(tree), desc
 
 
-def enumerate_mutants(seed, maxn):
+def enumerate_mutants(seed, maxn, kinds=None):
     os.makedirs(ROOT, exist_ok=True)
     rng = random.Random(seed)
     allm = []
@@ -168,7 +209,7 @@ def enumerate_mutants(seed, maxn):
         src = open(f"/repo/src/someip/{fn}").read()
         tree = ast.parse(src)
         for path, kind, var in sites(tree):
-            if in_skipped_context(tree, path):
+            if in_skipped_context(tree, path) or (kinds and kind not in kinds):
                 continue
             node = get(tree, path)
             allm.append(dict(file=fn, path=path, kind=kind, var=var, line=getattr(node, "lineno", 0)))
@@ -332,7 +373,7 @@ if __name__ == "__main__":
         return type(default)(args[args.index(name) + 1]) if name in args else default
 
     if cmd == "enumerate":
-        enumerate_mutants(opt("--seed", 0), opt("--max", 400))
+        enumerate_mutants(opt("--seed", 0), opt("--max", 400), set(opt("--kinds", "").split(",")) - {""} or None)
     elif cmd == "run":
         only = [int(x) for x in opt("--only", "").split(",") if x] if "--only" in args else None
         run(opt("--workers", 16), only, opt("--out", "results.jsonl"))
